@@ -943,8 +943,17 @@ impl FutWait {
 
 impl Wait for FutWait {
     #[cold]
-    fn wait(&self, _seq: usize, _w_pos: &AtomicUsize, _wc: &AtomicUsize) {
-        panic!("Somehow normal wait got called in futures queue");
+    fn wait(&self, seq: usize, w_pos: &AtomicUsize, wc: &AtomicUsize) {
+        // reached through the direct recv() of the futures receivers: there is
+        // no task to park, so wait like a yielding plain queue does
+        loop {
+            #[cfg(multiqueue2_verif)]
+            crate::verif_hooks::spin_loop();
+            if check(seq, w_pos, wc) {
+                return;
+            }
+            yield_now();
+        }
     }
 
     fn notify(&self) {
